@@ -214,6 +214,13 @@ def build_spec(d):
         return dc.SequenceLengthBounds(d["min_length"], d["max_length"])
     if k == "cai":
         return dc.MaximizeCAI(codon_usage_table=hard.user_table(random.Random(d["table_seed"])), location=loc, boost=boost)
+    if k == "codon_optimize":
+        return dc.CodonOptimize(codon_usage_table=hard.user_table(random.Random(d["table_seed"])), method="use_best_codon",
+                                location=loc, boost=boost)
+    if k == "rca":
+        return dc.HarmonizeRCA(codon_usage_table=hard.user_table(random.Random(d["table_seed"])),
+                               original_codon_usage_table=hard.user_table(random.Random(d["orig_table_seed"])),
+                               location=loc, boost=boost)
     if k == "keep_obj":
         return dc.AvoidChanges(location=loc, boost=boost)
     if k == "change_obj":
